@@ -87,10 +87,68 @@ const (
 	viaDecoder
 	viaPackedDecoder
 	viaCustomArena
+	viaResetMessage       // a Message that has read another (multi-segment) message, then Reset(arena)
+	viaReuseDecoder       // second message of a stream read by a Decoder with ReuseBuffer
+	viaReusePackedDecoder // same, packed
 	numVia
 )
 
-var viaNames = []string{"MultiSegment", "SingleSegment", "Unmarshal", "UnmarshalPacked", "Decoder", "PackedDecoder", "CustomArena"}
+var viaNames = []string{"MultiSegment", "SingleSegment", "Unmarshal", "UnmarshalPacked", "Decoder", "PackedDecoder", "CustomArena", "ResetMessage", "ReuseDecoder", "ReusePackedDecoder"}
+
+// prevMessage returns the segments of a valid message that is read *before*
+// the case's message through the same Message / Decoder (history): k >= 2
+// segments, the root is a far pointer into the last segment, every segment is
+// larger than most case segments and filled with a recognisable pattern, so
+// that anything the library keeps across Reset (cached first segment, segment
+// map, bounds) shows up as a wrong value, an escape or a panic.
+func prevMessage(rng *common.RNG) [][]byte {
+	k := 1
+	if rng == nil || !rng.Chance(1, 5) {
+		k = 2
+		if rng != nil {
+			k += rng.Intn(2)
+		}
+	}
+	segs := make([][]byte, k)
+	for i := range segs {
+		n := 8 * (24 + 8*i)
+		segs[i] = make([]byte, n)
+		for j := range segs[i] {
+			segs[i][j] = byte(0xE0 + i)
+		}
+	}
+	put := func(b []byte, w uint64) {
+		for j := 0; j < 8; j++ {
+			b[j] = byte(w >> (8 * uint(j)))
+		}
+	}
+	// root: struct pointer (1 data word, 2 pointers) in segment 0; pointer 0 is a
+	// 16-byte Data blob in segment 0 (a stale read hands out a slice of the
+	// *previous* buffer: escape), pointer 1 a far pointer into the last segment.
+	put(segs[0][0:], 1<<32|2<<48)
+	put(segs[0][16:], 1|1<<2|2<<32|16<<35)
+	if k > 1 {
+		put(segs[0][24:], 2|uint64(k-1)<<32)
+		put(segs[k-1][0:], 2<<32) // landing pad: struct, two data words
+	} else {
+		put(segs[0][24:], 0)
+	}
+	return segs
+}
+
+// touch reads the previous message far enough to load all its segments.
+func touch(m *capnp.Message) {
+	if r, err := m.Root(); err == nil {
+		_ = r.Struct().Uint64(0)
+		if p, err := r.Struct().Ptr(0); err == nil {
+			_ = p.Data()
+		}
+		r.Struct().Ptr(1)
+	}
+	for i := int64(0); i < m.NumSegments(); i++ {
+		m.Segment(capnp.SegmentID(i))
+	}
+}
 
 // roArena is a custom read-only Arena (the interface is public): exercises
 // the Arena code path that neither SingleSegment nor MultiSegment take.
@@ -121,6 +179,29 @@ func present(segs [][]byte, via int, rng *common.RNG) (*capnp.Message, *guarded,
 	case viaCustomArena:
 		g := guard(segs)
 		return &capnp.Message{Arena: &roArena{g.segs}}, g, nil
+	case viaResetMessage:
+		g := guard(segs)
+		pg := guard(prevMessage(rng))
+		m := &capnp.Message{Arena: capnp.MultiSegment(pg.segs)}
+		touch(m)
+		m.Reset(capnp.MultiSegment(g.segs))
+		return m, g, nil
+	case viaReuseDecoder, viaReusePackedDecoder:
+		stream := append(ref.Frame(prevMessage(rng)), ref.Frame(segs)...)
+		var d *capnp.Decoder
+		if via == viaReuseDecoder {
+			d = capnp.NewDecoder(&chunkReader{b: stream, rng: rng})
+		} else {
+			d = capnp.NewPackedDecoder(&chunkReader{b: refPack(stream), rng: rng})
+		}
+		d.ReuseBuffer()
+		m, err := d.Decode()
+		if err != nil {
+			return nil, nil, errors.New("harness: the history message was refused: " + err.Error())
+		}
+		touch(m)
+		m, err = d.Decode()
+		return m, nil, err
 	case viaUnmarshal:
 		g := guard([][]byte{ref.Frame(segs)})
 		m, err := capnp.Unmarshal(g.segs[0])
